@@ -278,7 +278,7 @@ struct Pool {
                 // read-only use of any object (also of moved-from ones): nothing may change
                 const B &a = **slots[i].box, &b = **slots[j].box;
                 va::LibScope ls;
-                volatile int sink = a.compare(b) + (a == b) + (a < b) + static_cast<int>(a.empty()) + static_cast<int>(a.front()) + static_cast<int>(a.back());
+                volatile unsigned sink = static_cast<unsigned>(a.compare(b)) + (a == b) + (a < b) + static_cast<unsigned>(a.empty()) + static_cast<unsigned>(a.front()) + static_cast<unsigned>(a.back());
                 (void)sink;
                 BS s = a.to_std_string();
                 { va::HarnessScope hs; if (s.size() != a.size()) fail("to_std_string-size", i, "to_std_string().size() != size()"); }
